@@ -242,6 +242,22 @@ TEST_DIC = {"alphabet": FULL_ALPHA,
             "anc": [["まで", "まで", {"Particle": "Adverbial"}], ["で", "で", {"Particle": "Case"}]]}
 
 
+def exhaustive_queries(maxlen):
+    """every input over a two-kana alphabet up to maxlen, on one dictionary that has every kind of word on those readings, in every context"""
+    import itertools
+    d = {"alphabet": FULL_ALPHA,
+         "std": [["あ", "亜", {"Noun": "Common"}], ["あい", "愛", {"Noun": "Common"}], ["い", "井", {"Noun": "Proper"}], ["いあ", "医亜", {"Noun": "Sahen"}],
+                 ["あ", "唖", {"Verb": {"Godan": "カ"}}], ["いい", "良", "Adjective"], ["あい", "藍", {"Noun": "Common"}], ["い", "い", {"Particle": "Case"}]],
+         "anc": [["あ", "阿", {"Affix": "Prefix"}], ["い", "位", {"Affix": "Suffix"}], ["い", "い", {"Particle": "Adverbial"}], ["あ", "あ", "AuxiliaryVerb"],
+                 ["いあ", "個", "Counter"], ["あい", "間", {"Affix": "Suffix"}], ["あ", "あ", {"Particle": "SentenceFinal"}]]}
+    qs = []
+    for n in range(1, maxlen + 1):
+        for t in itertools.product("あい", repeat=n):
+            for ctx in CONTEXTS:
+                qs.append({"op": "kkc_query", "dict": d, "context": ctx, "freq": [[ctx, "愛", 2, 0]] if n % 2 else [], "input": "".join(t), "n": 3 if n > 4 else 1000000})
+    return qs
+
+
 def corpus_queries(heavy=False):
     qs = []
     for inp in ["くるまではしらなかった", "くるまで", "くる", "く", "くるまでくるまで", "xくるま"]:
@@ -380,7 +396,7 @@ def kkc_run(prop, tier, seed, props_file, extra_cone, predicate, nq_quick=400, n
         res.tie_broken("harness build failed", hlog[-1500:])
         return res.finish({"obligations": info["obligations"], "discharged": info["discharged"], "checker_cmd": "make", "trusted_base": TRUSTED_COMMON}, [])
     nq = nq_quick if tier == "quick" else nq_thorough
-    qs = corpus_queries(heavy=(prop == "C02")) + (make_q(rnd, nq) if make_q else make_queries(rnd, nq))
+    qs = corpus_queries(heavy=(prop == "C02")) + exhaustive_queries(4 if tier == "quick" else 7) + (make_q(rnd, nq) if make_q else make_queries(rnd, nq))
     rs = harness_parallel(qs, chunk=max(20, len(qs) // 32))
     nontrivial = 0
     for q, r in zip(qs, rs):
